@@ -78,7 +78,6 @@ theorem thief_owner_unlocked (s : St) (h : Inv s) (p : Pid) (hl : s.lock = .thie
   | false => rfl
   | true => have := h.lockO.2 ho; rw [hl] at this; cases this
 
-set_option maxHeartbeats 4000000 in
 theorem f_T_inc (s : St) (p : Pid) (b : Int) : Inv s → s.lock = .thief p → s.bufT p = [.base (b + 1)] →
     (s.tpc p = .tkf b ∨ s.tpc p = .wkf b ∨ s.tpc p = .vkf b) → s.lb = b → s.tr = false →
     Inv (applySto { s with bufT := upd s.bufT p [] } (.base (b + 1))) := by
@@ -87,12 +86,8 @@ theorem f_T_inc (s : St) (p : Pid) (b : Int) : Inv s → s.lock = .thief p → s
   simp only [applySto]
   have hd : decide (b + 1 = s.lb + 1) = true := by simp [hlb]
   rw [hd]
-  cases h
-  simp only [ownerLocked, carry, resetting, ownerFlight] at *
-  rcases hpc with hpc | hpc | hpc
-  all_goals tso_finish3
+  tso_fastT h p [tkf, wkf, vkf]
 
-set_option maxHeartbeats 4000000 in
 theorem f_T_rb (s : St) (p : Pid) : Inv s → s.lock = .thief p → s.bufT p = [.base s.lb] →
     (s.tpc p = .tk6 ∨ s.tpc p = .wk6 ∨ s.tpc p = .vu) → s.tr = true →
     Inv (applySto { s with bufT := upd s.bufT p [] } (.base s.lb)) := by
@@ -101,9 +96,6 @@ theorem f_T_rb (s : St) (p : Pid) : Inv s → s.lock = .thief p → s.bufT p = [
   simp only [applySto]
   have hd : decide (s.lb = s.lb + 1) = false := by simp; omega
   rw [hd]
-  cases h
-  simp only [ownerLocked, carry, resetting, ownerFlight] at *
-  rcases hpc with hpc | hpc | hpc
-  all_goals tso_finish3
+  tso_fastT h p [tk6, wk6, vu]
 
 end MythVerif.WsqTso
